@@ -729,8 +729,20 @@ def monitorC15 (cx : Ctx) : List Finding := Id.run do
       let tickUs := 1000000 / (if fps == 0 then 60 else fps)
       let lo : Int := ((2 * lat) / 1000 : Nat) - 1
       let hi : Int := ((2 * lat + 2 * stepUs + 2 * tickUs) / 1000 : Nat) + 2
+      let mut runSince : Option Nat := none
       for c in cx.sc.calls do
-        if c.sid != s.sid || c.call.headD "" != "stats" then continue
+        if c.sid != s.sid then continue
+        if runSince.isNone && (c.snapInt "run").getD 0 == 1 then runSince := some c.now
+        if c.call.headD "" != "stats" then continue
+        -- once the session has been running for two seconds on such a link (a quality report every
+        -- 200 ms, answered within the round trip) the data exists: no more NotEnoughData
+        match runSince, c.call with
+        | some t0, [_, hs] =>
+          let isRemote := s.players.any fun (h, k, _) => k == 'R' && toString h == hs
+          if isRemote && c.result == "err NotEnoughData" && c.now > t0 + 2000000 then
+            out := mkF cx "C15" "no-stats" s.sid c.lineNo
+              s!"network_stats still reports NotEnoughData {(c.now - t0) / 1000} ms after the session became Running (one-way latency {lat} µs)" :: out
+        | _, _ => pure ()
         match words c.result with
         | ["ok", ping, _, _, _] =>
           match ping.toInt? with
@@ -740,7 +752,7 @@ def monitorC15 (cx : Ctx) : List Finding := Id.run do
                 s!"network_stats reports ping {pg} ms; the link's round trip is {2 * lat / 1000} ms (one-way latency {lat} µs, tick {tickUs} µs): expected {lo}..{hi}" :: out
           | none => pure ()
         | _ => pure ()
-  return (out.reverse.foldl (fun acc f => if f.clause == "ping" && acc.any (fun g => g.clause == "ping" && g.sid == f.sid) then acc else acc ++ [f]) [])
+  return (out.reverse.foldl (fun acc f => if (f.clause == "ping" || f.clause == "no-stats") && acc.any (fun g => g.clause == f.clause && g.sid == f.sid) then acc else acc ++ [f]) [])
 
 /-! ### C18 — internal buffers stay bounded -/
 
